@@ -17,6 +17,7 @@ import (
 	"os"
 	"path/filepath"
 	"sort"
+	"strconv"
 	"strings"
 	"sync"
 	"time"
@@ -44,9 +45,9 @@ type glueRec struct {
 	ws    []glueWrite
 }
 
-func (r *glueRec) List(ctx context.Context, p string) ([]string, error) { return r.inner.List(ctx, p) }
+func (r *glueRec) List(ctx context.Context, p string) ([]string, error)   { return r.inner.List(ctx, p) }
 func (r *glueRec) Get(ctx context.Context, k string) (interface{}, error) { return r.inner.Get(ctx, k) }
-func (r *glueRec) Delete(ctx context.Context, k string) error            { return r.inner.Delete(ctx, k) }
+func (r *glueRec) Delete(ctx context.Context, k string) error             { return r.inner.Delete(ctx, k) }
 func (r *glueRec) WatchKey(ctx context.Context, k string, f func(interface{}) bool) {
 	r.inner.WatchKey(ctx, k, f)
 }
@@ -170,6 +171,25 @@ func glueRun(sc glueScen, dir string) string {
 		}
 		runs = append(runs, run)
 	}
+	// load probe: the largest scheduling delay seen by a goroutine that sleeps 50 ms at a time; the judge does not
+	// evaluate the cadence of a scenario during which the harness process itself was starved
+	var maxLag int64
+	probeStop := make(chan struct{})
+	probeDone := make(chan struct{})
+	go func() {
+		defer close(probeDone)
+		for {
+			t := time.Now()
+			select {
+			case <-probeStop:
+				return
+			case <-time.After(50 * time.Millisecond):
+			}
+			if lag := time.Since(t).Milliseconds() - 50; lag > maxLag {
+				maxLag = lag
+			}
+		}
+	}()
 	ctx := context.Background()
 	for _, r := range runs {
 		r.start = time.Since(t0).Milliseconds()
@@ -233,7 +253,9 @@ func glueRun(sc glueScen, dir string) string {
 		}
 		parts = append(parts, fmt.Sprintf("%s/%c/%d/%d/%d/%s", r.spec.id, r.spec.kind, period.Milliseconds(), r.start, r.stop, wj))
 	}
-	return strings.Join([]string{"C08.glue", sc.name, strings.Join(parts, ";")}, "\t")
+	close(probeStop)
+	<-probeDone
+	return strings.Join([]string{"C08.glue", sc.name, strings.Join(parts, ";"), strconv.FormatInt(maxLag, 10)}, "\t")
 }
 
 // glueStart launches all glue scenarios in the background; the returned function waits for them and returns the lines.
